@@ -227,7 +227,7 @@ pub fn c11(args: &Args) {
             out.emit(json!({"ev":"fft-basis","n":n,"i":i,"out":vec_or_panic(|| verif::ntt_fft(&a)),"tag":"fft-basis"}));
         }
         // general vectors: forward, round trip, product
-        let reps = if thorough { 60 } else { 3 };
+        let reps = if thorough { 60 } else if n >= 256 { 10 } else { 3 };
         for r in 0..reps {
             let a: Vec<i16> = match r {
                 0 => vec![12288i16; n],
